@@ -48,10 +48,10 @@ man = {
         'add_only': True,
     },
     'engines': [
-        {'name': 'E1', 'path': 'harness/shapegen', 'serves_properties': ['C01', 'C02', 'C03', 'C04'], 'kind_free_text': 'generator of Go programs (struct shapes + optics/hseq instantiations) checked against compiler-computed field addresses and byte images'},
+        {'name': 'E1', 'path': 'harness/shapegen, harness/optcheck, harness/cmd/shapegen', 'serves_properties': ['C01', 'C02', 'C03', 'C04'], 'kind_free_text': 'generator of Go programs (struct shapes + optics/hseq instantiations) checked against compiler-computed field addresses and byte images'},
         {'name': 'E2', 'path': 'harness/optdyn', 'serves_properties': ['C01', 'C02', 'C03'], 'kind_free_text': 'rapid over reflect.StructOf shapes, reflect addressing as oracle'},
-        {'name': 'E3', 'path': 'harness/pipes', 'serves_properties': ['C05', 'C06', 'C07', 'C08', 'C11', 'C12', 'C13'], 'kind_free_text': 'environment-move scripts executed at quiescent points of a testing/synctest bubble (rapid.SyncTest style), list/FIFO/virtual-time oracles'},
-        {'name': 'E4', 'path': 'harness/forks', 'serves_properties': ['C09', 'C10'], 'kind_free_text': 'E3 plus gates that fix the completion order of in-flight user calls; free-running -race tier'},
+        {'name': 'E3', 'path': 'harness/pipes (engine.go, stages.go, timed.go, unbound.go), harness/bubble', 'serves_properties': ['C05', 'C06', 'C07', 'C08', 'C11', 'C12', 'C13'], 'kind_free_text': 'environment-move scripts executed at quiescent points of a testing/synctest bubble (rapid.SyncTest style), list/FIFO/virtual-time oracles'},
+        {'name': 'E4', 'path': 'harness/pipes (forks.go, free.go, gates in engine.go)', 'serves_properties': ['C09', 'C10'], 'kind_free_text': 'E3 plus gates that fix the completion order of in-flight user calls; free-running -race tier'},
         {'name': 'E5', 'path': 'harness/iters, harness/ducts', 'serves_properties': ['C14', 'C15', 'C16'], 'kind_free_text': 'generated combinator expression trees / programs against a list interpreter / stack model'},
         {'name': 'E6', 'path': 'harness/c18, harness/c19', 'serves_properties': ['C18', 'C19'], 'kind_free_text': 'model-based operation histories (rapid), exhaustive small histories'},
         {'name': 'E7', 'path': 'harness/c17, harness/c20', 'serves_properties': ['C17', 'C20'], 'kind_free_text': 'algebraic laws over generated values with order-revealing witnesses'},
